@@ -270,6 +270,13 @@ def worker(batch):
 def collect(ctx, n_ir, _unused=0):
     rng = ctx.rng
     irs = [gen_ir(rng) for _ in range(n_ir)]
+    # corpus: `str` / a string Literal nested two levels deep in the type, with a string default (whether the default is written as a
+    # string constant is decided by looking for `str` INSIDE the type)
+    from collections import OrderedDict
+    for typ, dflt in (("Optional[Literal['train', 'eval']]", "train"), ("Optional[Union[int, str]]", "max"), ("Union[int, Optional[str]]", "a b"),
+                      ("Dict[str, Optional[str]]", T.NoneStr)):
+        irs.append({"name": "Thing", "doc": "Thing description.", "returns": None,
+                    "params": OrderedDict((("alpha", {"typ": "int", "doc": "the value", "default": 5}), ("mode", {"typ": typ, "doc": "first item to use", "default": dflt})))})
     agg = {"n": 0, "exec": 0}
     items, corr = [], []
     for r in run_cases(worker, [irs[i:i + 5] for i in range(0, len(irs), 5)], chunk=1):
